@@ -166,7 +166,7 @@ print(json.dumps(out))
 
 
 def cold_table_start(n):
-    return subprocess.Popen([sys.executable, "-c", COLD, str(n)], stdout=subprocess.PIPE, stderr=subprocess.PIPE, text=True)
+    return subprocess.Popen([sys.executable, "-c", COLD, str(n)], stdout=subprocess.PIPE, stderr=subprocess.PIPE, text=True, env=util.hash_env(14))
 
 
 def cold_table_finish(ctx, proc, n, events):
@@ -229,7 +229,7 @@ print(json.dumps(out))
 
 
 def optimised_start(words):
-    return subprocess.Popen([sys.executable, "-O", "-c", OPT, json.dumps(words)], stdout=subprocess.PIPE, stderr=subprocess.PIPE, text=True)
+    return subprocess.Popen([sys.executable, "-O", "-c", OPT, json.dumps(words)], stdout=subprocess.PIPE, stderr=subprocess.PIPE, text=True, env=util.hash_env(141))
 
 
 def optimised_finish(ctx, proc, events):
